@@ -83,7 +83,7 @@ func renderTokList(l TokListSpec, at int) (txt []byte, items []tokExp, termAt in
 		}
 		w.Write(l.Tail)
 	case "sp":
-		w.WriteString(" ")
+		w.Write(l.spws())
 		w.Write(l.Tail)
 	case "eoh":
 		w.WriteString("\r\n")
@@ -171,7 +171,11 @@ func evalTokList(c CaseTokList) Result {
 	case "term":
 		wantEnd, wantOffs = sipsp.ErrHdrOk, termAt
 	case "sp":
-		wantEnd, wantOffs = sipsp.ErrHdrOk, termAt
+		// "the separator is the whitespace before the token": the last whitespace byte in front of it
+		wantEnd, wantOffs = sipsp.ErrHdrOk, termAt+len(l.spws())-1
+		if len(l.spws()) > 1 {
+			classes = append(classes, "sp-term:multi-ws")
+		}
 	case "eoh":
 		wantOffs = termAt + 2
 	}
@@ -464,6 +468,11 @@ func genCaseTokList(t *rapid.T) CaseTokList {
 			bad = append(bad, ch, ch)
 		}
 		c.Bad = B{bad[uniformIdx(t, "bad", len(bad))]}
+		// the terminator byte where a parameter name has to start (nothing parsed yet): it is not a name byte in
+		// this mode (',' never is, '?' is not in URI-parameter mode), so it is rejected there, not absorbed
+		if term != 0 && (term == ',' || pf&sipsp.POptTokURIParamF != 0) && rapid.IntRange(0, 3).Draw(t, "termfirst") == 0 {
+			c.Inject, c.Bad = 0, B{term}
+		}
 	}
 	return c
 }
